@@ -147,13 +147,14 @@ def drive_ops(tier, seed):
                         msg_ids = sorted(k for k in pre if ("- " + k) in msg)
                     except Exception as ex:  # noqa: BLE001
                         oc, cls, seen, msg_ids = "raise:" + type(ex).__name__, "none", [], []
+                    post_entries = {k: (v.entry_point, kwd(v.kwargs)) for k, v in reg._REGISTRY.items()}
                     regd = pre.get(i)
                     evs.append({"k": "make", "sid": sid, "id": i, "call_kwargs": sorted(kw.items()), "outcome": oc, "class": cls,
                                 "seen_kwargs": [[k, v] for k, v in seen], "pre_ids": sorted(pre),
                                 "registered": i in pre,
                                 "registered_entry": regd[0].split(":")[1] if regd else "none",
                                 "registered_kwargs": sorted(json.loads(regd[1]).items()) if regd else [],
-                                "listed_ids": msg_ids,
+                                "listed_ids": msg_ids, "entries_unchanged": post_entries == pre,
                                 "post_ids": sorted(reg._REGISTRY)})
     finally:
         reg._REGISTRY.clear()
